@@ -1,3 +1,4 @@
+import Pocket.Lemmas.FromSourceConsts
 import Pocket.Lemmas.Total
 import Pocket.Lemmas.Digits
 import Pocket.Lemmas.FilterRT
@@ -259,5 +260,20 @@ example : ∃ f : FilterRec, FilterCanon f ∧ f.tags.length = 2 ∧ f.ids ≠ [
         · exact ⟨[233], by decide, rfl⟩
         · exact ⟨[10], by decide, rfl⟩, by decide⟩
   · decide
+
+/-! ### tie to the source text: what /repo says now (translated on every run by `lib/srcfacts.py`) is what the model says -/
+
+/-- the binary filter's header layout (offsets and element sizes named in `filter.rs`) is the model's; the table of
+tag-member positions has one slot per letter -/
+theorem filter_layout_from_source :
+    (∀ a ∈ Src.c_filter_ARRAYS_OFFSET, filterSize 0 0 0 0 = a) ∧
+    (∀ s ∈ Src.c_filter_ID_SIZE, filterSize 1 0 0 0 = filterSize 0 0 0 0 + s) ∧
+    (∀ s ∈ Src.c_filter_PUBKEY_SIZE, filterSize 0 1 0 0 = filterSize 0 0 0 0 + s) ∧
+    (∀ s ∈ Src.c_filter_KIND_SIZE, filterSize 0 0 1 0 = filterSize 0 0 0 0 + s) ∧
+    Src.c_filter_NUM_IDS_OFFSET = [4] ∧ Src.c_filter_NUM_AUTHORS_OFFSET = [6] ∧ Src.c_filter_NUM_KINDS_OFFSET = [8] ∧
+    Src.c_filter_LIMIT_OFFSET = [12] ∧ Src.c_filter_SINCE_OFFSET = [16] ∧ Src.c_filter_UNTIL_OFFSET = [24] :=
+  Pocket.filter_layout_from_source
+
+theorem tag_table_from_source : Src.startTagsLen = 52 := Pocket.parser_bounds_from_source.2
 
 end Pocket.C07
